@@ -15,6 +15,7 @@ class Def:
         self.status = status
         self.is_value = is_value
         self.uid = None
+        self.governor = None
 
     def asn(self):
         return self.text
@@ -40,6 +41,7 @@ def gen_module_set(rng, k, nmods=None, max_defs=8, cross=True):
     ms = ModuleSet()
     nmods = nmods or rng.randint(1, 4)
     pool = []          # Defs of kind type usable as references: only plain supported ones
+    all_values = []
     counter = 0
     for mi in range(nmods):
         mname = 'Mod%02d-%s' % (k % 100, 'abcde'[mi])
@@ -56,10 +58,28 @@ def gen_module_set(rng, k, nmods=None, max_defs=8, cross=True):
                 name = type_name(rng, k, counter)
                 lo = rng.randint(-5, 5)
                 d = Def(mname, name, 'int', '%s ::= INTEGER (%d..%d)' % (name, lo, lo + rng.randint(0, 300)))
-            elif r < 0.3:
+            elif r < 0.28 and [x for x in pool if x.kind == 'nint' and x.module == mname]:
+                # a constraint written with the named numbers of the parent type
+                ref = rng.choice([x for x in pool if x.kind == 'nint' and x.module == mname])
+                name = type_name(rng, k, counter)
+                d = Def(mname, name, 'nint-sub', '%s ::= %s (low..high)' % (name, ref.name), deps=[ref.name])
+            elif r < 0.33:
+                name = type_name(rng, k, counter)
+                lo = rng.randint(0, 5)
+                d = Def(mname, name, 'nint', '%s ::= INTEGER { low(%d), high(%d) }' % (name, lo, lo + rng.randint(1, 40)))
+            elif r < 0.40 and [x for x in all_values if x.governor]:
+                # a bound given by a value of another (or this) module: only the value is imported, not its type
+                v = rng.choice([x for x in all_values if x.governor])
+                name = type_name(rng, k, counter)
+                d = Def(mname, name, 'int-by-value', '%s ::= INTEGER (-1000..%s)' % (name, v.name), deps=[v.name])
+            elif r < 0.47 and [x for x in pool if x.kind in ('seq', 'components-of') and x.module == mname and 'SEQUENCE' in x.text]:
+                ref = rng.choice([x for x in pool if x.kind in ('seq', 'components-of') and x.module == mname and 'SEQUENCE' in x.text])
+                name = type_name(rng, k, counter)
+                d = Def(mname, name, 'components-of', '%s ::= SEQUENCE { COMPONENTS OF %s, own%d BOOLEAN }' % (name, ref.name, counter), deps=[ref.name])
+            elif r < 0.52:
                 name = type_name(rng, k, counter)
                 d = Def(mname, name, 'enum', '%s ::= ENUMERATED { e%da, e%db%s }' % (name, counter, counter, rng.choice(['', ', ...'])))
-            elif r < 0.55:
+            elif r < 0.70:
                 name = type_name(rng, k, counter)
                 refs = [rng.choice(cands) for _ in range(rng.randint(1, 3))]
                 members = ['m%d%s %s%s' % (j, 'abc'[j], ref.name, rng.choice(['', ' OPTIONAL', '']))
@@ -69,16 +89,16 @@ def gen_module_set(rng, k, nmods=None, max_defs=8, cross=True):
                 if rng.random() < 0.3:
                     members.append('...')
                 d = Def(mname, name, 'seq', '%s ::= %s { %s }' % (name, rng.choice(['SEQUENCE', 'SET']), ', '.join(members)), deps=[x.name for x in refs])
-            elif r < 0.65:
+            elif r < 0.78:
                 name = type_name(rng, k, counter)
                 refs = [rng.choice(cands) for _ in range(rng.randint(1, 3))]
                 alts = ['c%d%s %s' % (j, 'xyz'[j], ref.name) for j, ref in enumerate(refs)] + ['none NULL']
                 d = Def(mname, name, 'choice', '%s ::= CHOICE { %s }' % (name, ', '.join(alts)), deps=[x.name for x in refs])
-            elif r < 0.75:
+            elif r < 0.85:
                 name = type_name(rng, k, counter)
                 ref = rng.choice(cands)
                 d = Def(mname, name, 'of', '%s ::= SEQUENCE %sOF %s' % (name, rng.choice(['', '(SIZE (1..4)) ']), ref.name), deps=[ref.name])
-            elif r < 0.83:
+            elif r < 0.90:
                 name = type_name(rng, k, counter)
                 ref = rng.choice(cands)
                 d = Def(mname, name, 'alias', '%s ::= %s' % (name, ref.name), deps=[ref.name])
@@ -89,13 +109,17 @@ def gen_module_set(rng, k, nmods=None, max_defs=8, cross=True):
                     ref = rng.choice(ints)
                     lo = int(re.search(r'\((-?\d+)\.\.', ref.text).group(1))
                     d = Def(mname, name, 'value', '%s %s ::= %d' % (name, ref.name, lo), deps=[ref.name], is_value=True)
+                    d.governor = ref.name
                 else:
                     d = Def(mname, name, 'value', '%s %s' % (name, rng.choice(['INTEGER ::= %d' % rng.randint(-9, 99), 'BOOLEAN ::= TRUE',
                                                                                  'OCTET STRING ::= \'AB\'H'])), is_value=True)
             d.uid = counter
             defs.append(d)
             if not d.is_value:
-                pool.append(d)
+                if d.kind not in ('nint-sub',):
+                    pool.append(d)
+            else:
+                all_values.append(d)
         ms.modules.append((mname, {'tagging': tagging, 'ext': ext}, defs))
     return ms
 
@@ -107,6 +131,8 @@ UNSUPPORTED = [
     ('time', lambda n: '%s ::= TIME' % n, WARNED_GEN),
     ('class', lambda n: '%s ::= CLASS { &id INTEGER UNIQUE, &Type }' % n.upper().replace('-', ''), NO_OUTPUT),
     ('template', lambda n: '%s {T} ::= SEQUENCE { t T }' % n, NO_OUTPUT),
+    ('macro-first', lambda n: 'AA-%s MACRO ::= BEGIN TYPE NOTATION ::= "X" VALUE NOTATION ::= value (VALUE INTEGER) END' % n.upper(), WARNED_GEN),
+    ('macro-last', lambda n: 'ZZ-%s MACRO ::= BEGIN TYPE NOTATION ::= "X" VALUE NOTATION ::= value (VALUE INTEGER) END' % n.upper(), WARNED_GEN),
 ]
 UNSUPPORTED_VALUES = [
     ('realvalue', lambda n: '%s REAL ::= 5' % n, WARNED_GEN),
